@@ -109,7 +109,7 @@ def static_len(it, part):
             return 1
         if k == z3.Z3_OP_SEQ_EMPTY:
             return 0
-        if k == z3.Z3_OP_UNINTERPRETED and part.decl().name() in ('pad16', 'spad16'):
+        if k == z3.Z3_OP_UNINTERPRETED and part.decl().name() == 'pad16':
             return 16
     return None
 
